@@ -1,7 +1,20 @@
 #!/bin/bash
-# offline build of everything the checks need: all Lean modules (models, lemmas, theorems) and all drivers
-set -e
-cd "$(dirname "$0")/lean"
-targets="Infretis"
-for f in Drivers/C*.lean; do b=$(basename "$f" .lean); targets="$targets drv_$(echo "$b" | tr 'A-Z' 'a-z')"; done
-lake build $targets
+# Offline build of everything the checks need: per property the theorems (Infretis.Props.Cxx, which
+# pulls in models and lemmas) and the compiled driver.  A package that fails to build does not stop
+# the others: its own check rebuilds it and reports the broken proof obligation.
+cd "$(dirname "$0")/lean" || exit 1
+fail=""
+for f in Drivers/C*.lean; do
+  b=$(basename "$f" .lean)
+  lower=$(echo "$b" | tr 'A-Z' 'a-z')
+  targets="drv_$lower"
+  [ -f "Infretis/Props/$b.lean" ] && targets="Infretis.Props.$b $targets"
+  if ! lake build $targets > ".lake-setup-$b.log" 2>&1; then
+    fail="$fail $b"
+    tail -5 ".lake-setup-$b.log"
+  fi
+  rm -f ".lake-setup-$b.log"
+done
+if [ -n "$fail" ]; then echo "setup: packages that did not build:$fail (their checks will report it)"; fi
+echo "setup: done"
+exit 0
